@@ -12,7 +12,9 @@ correspondence: the REAL Falcon app (`make_wsgi_app`) around one RpcServer repla
                 measured frame sizes, huge; response codings identity / zstd / gzip; three method shapes (call state, no call
                 state, declared header); every resume token replayed on the origin worker (warm), on a second worker sharing
                 the key (cold first, warm afterwards), on a worker with `call_state_cache_entries=0` (always cold), via
-                resume_stream and via init + seek_to_token.  Compared: client events and the chunking (data batches and token
+                resume_stream and via init + seek_to_token -- the latter also on workers whose /init response already
+                finished the fresh stream (huge cap, smallest cap that fits the whole stream) and on the origin's own
+                session after it was read to end-of-stream (rewind), read back by iteration and by next_with_token.  Compared: client events and the chunking (data batches and token
                 per response) against M_HttpProd.run_case; property oracles evaluated on the implementation alone.
 
 Readings adopted
@@ -141,6 +143,8 @@ def c_event(e: list[Any]) -> str:
         return f"EError {_s(e[1])} {_s(e[2])}"
     if t == "done":
         return "EDone"
+    if t == "blocked":
+        return "EBlocked"
     return f"EError {_s('client_exc:' + str(e[1]))} {_s(str(e[2]))}"
 
 
@@ -236,7 +240,69 @@ def do_iterate(ctx: Any, app: Any, codec: str | None, method: str, pid: int) -> 
     return rec.events, rc
 
 
-def do_nwt(ctx: Any, app: Any, method: str, pid: int) -> tuple[list[list[Any]], list[bytes | None], Any]:
+def read_session(ctx: Any, sess: Any, pid: int, how: str, ev: list[list[Any]], repl: dict[str, Any]) -> None:
+    """read a positioned session to the end, by iteration or by repeated next_with_token"""
+    if how == "iterate":
+        for ab in sess:
+            check_payload(ctx, pid, ab, repl)
+            ev.append(batch_event(ab))
+        ev.append(["done"])
+        return
+    for _ in range(64):
+        ab, _tok = sess.next_with_token()
+        if ab is None:
+            ev.append(["done"])
+            return
+        check_payload(ctx, pid, ab, repl)
+        ev.append(batch_event(ab))
+    ev.append(["client_exc", "NoEnd", "next_with_token did not end"])
+
+
+def do_rewind(ctx: Any, holder: dict[str, Any], pid: int, tok: bytes, how: str) -> tuple[list[list[Any]], Any]:
+    """the SAME session object that was already read to end-of-stream: seek_to_token(tok), read again"""
+    sess, rc, rec = holder["sess"], holder["rc"], holder["rec"]
+    del rc.turns[:]
+    del rec.events[:]
+    ev: list[list[Any]] = rec.events if how == "iterate" else []
+
+    def body() -> None:
+        sess.seek_to_token(tok)
+        read_session(ctx, sess, pid, how, ev, {"pid": pid, "via": "rewind:" + how})
+
+    guarded(ev, body)
+    ctx.count("impl_runs")
+    return ev, rc
+
+
+def do_seek_fresh(ctx: Any, app: Any, method: str, pid: int, tok: bytes, how: str) -> tuple[list[list[Any]] | None, Any, bool]:
+    """the documented relay pattern: a FRESH stream on this worker, seek_to_token(tok), read.  Returns None when the fresh
+    call itself raised (no session to seek on), and whether the fresh session was already finished by its /init response."""
+    from harness import c11_service as S
+    from vgi_rpc.http import http_connect
+    from vgi_rpc.rpc import RpcError
+
+    rc = S.RecClient(app, None)
+    rec = Rec()
+    ctx.count("impl_runs")
+    with http_connect(S.C11Proto, client=rc, on_log=rec.on_log, compression_level=None) as proxy:
+        try:
+            sess = getattr(proxy, method)(pid=pid)
+        except RpcError:
+            return None, rc, False
+        was_finished = bool(sess._finished) or sess._state_bytes is None
+        del rc.turns[:]
+        del rec.events[:]
+        ev: list[list[Any]] = rec.events if how == "iterate" else []
+
+        def body() -> None:
+            sess.seek_to_token(tok)
+            read_session(ctx, sess, pid, how, ev, {"pid": pid, "method": method, "via": "seek-fresh:" + how})
+
+        guarded(ev, body)
+    return ev, rc, was_finished
+
+
+def do_nwt(ctx: Any, app: Any, method: str, pid: int, holder: dict[str, Any] | None = None) -> tuple[list[list[Any]], list[bytes | None], Any]:
     """next_with_token to the end: events (batches, terminal; logs are recorded but not part of this trace) and tokens."""
     from harness import c11_service as S
     from vgi_rpc.http import http_connect
@@ -249,6 +315,8 @@ def do_nwt(ctx: Any, app: Any, method: str, pid: int) -> tuple[list[list[Any]], 
     def body() -> None:
         with http_connect(S.C11Proto, client=rc, on_log=rec.on_log, compression_level=None) as proxy:
             sess = getattr(proxy, method)(pid=pid)
+            if holder is not None:
+                holder.update(sess=sess, rc=rc, rec=rec)
             for _ in range(64):
                 ab, tok = sess.next_with_token()
                 if ab is None:
@@ -396,7 +464,7 @@ def run(ctx: Any) -> None:
         ["prop/P_C11.vo", "refuted/R_C11.vo", "tie/T_HttpProd.vo"],
         {
             "P_C11": [
-                "C11_iterate_is_reference", "C11_cap_independent_partial", "C11_resume", "C11_resume_any_cache_same",
+                "C11_iterate_is_reference", "C11_cap_independent_partial", "C11_resume", "C11_resume_any_cache_same", "C11_seek_resume",
                 "C11_overshoot_le_last", "C11_overshoot_le_last_init", "C11_resume_token_roundtrip", "C11_turns_are_wire_core_frames",
             ],
             "T_HttpProd": ["resume_layout_tie", "loop_guard_tie", "C11_source_resume_token_roundtrip", "C11_source_overshoot"],
@@ -517,11 +585,13 @@ def run(ctx: Any) -> None:
                                       {**repl, "identity": by_cap[cap], "coded": obs})
                     continue
                 all_rcs.append(rc)
-                pending.append(("0", (c_wspec(1, cap, 8), "[]"), [obs], {**repl, "scenario": "iterate", "impl": list(obs)}))
+                pending.append(("0", (c_wspec(1, cap, 8), "([], [])"), [obs], {**repl, "scenario": "iterate", "impl": list(obs)}))
 
         # ---------------- scenario 1: next_with_token, then resume everywhere
         origin = worker(None, fresh=True)
-        n_ev, toks, n_rc = do_nwt(ctx, origin, method, pid)
+        holder: dict[str, Any] = {}
+        n_ev, toks, n_rc = do_nwt(ctx, origin, method, pid, holder)
+        n_turns = list(n_rc.turns)
         ctx.case([prog, method, "nwt"], nontrivial=nontrivial)
         if batches(n_ev) != ref_b:
             ctx.violation("next-with-token-batches-differ", "next_with_token does not yield the batches iteration yields", {**repl0, "nwt": n_ev, "iterate": ref_ev})
@@ -530,6 +600,12 @@ def run(ctx: Any) -> None:
         second = worker(None, 4096, fresh=True)        # shares the key; never saw /init of this stream
         cold = worker(cap2, 0)                          # call_state_cache_entries=0: every request takes the miss path
         others_spec = [c_wspec(1, None, 8), c_wspec(1, cap2, 0)]
+        # workers whose /init response already carries the WHOLE stream (no continuation token): a fresh session there is
+        # born finished, and seek_to_token must bring it back to life.  huge cap; the smallest cap that still fits everything.
+        init_bnds = bnds[0::2]
+        cap_fit = (max(init_bnds) + 1) if init_bnds else BIG
+        seekers = [("seek-fresh-huge-cap", worker(BIG), BIG), ("seek-fresh-fitting-cap", worker(cap_fit), cap_fit)]
+        seekers_spec = [c_wspec(1, c, 8) for _, _, c in seekers]
         live = [tk for tk in toks if tk is not None]
         for k, tk in enumerate(toks):
             if tk is None:
@@ -565,13 +641,43 @@ def run(ctx: Any) -> None:
                     ctx.violation("resume-not-remaining-batches", f"resuming after batch {k + 1} on {name} does not yield exactly the remaining batches",
                                   {**repl0, "k": k, "target": name, "resumed": ev, "remaining": want})
                 overshoot_check(ctx, S, rc, cap2 if app is cold else None, codec, {**repl0, "k": k, "target": name, "codec": codec})
+            # init + seek_to_token on sessions the /init response has (possibly) already finished; then the origin's own
+            # session, read to end-of-stream above, rewound.  Model: seek_fresh_iter / iter_sess (seek ss tok).
+            def judge(name: str, ev: list[list[Any]]) -> None:
+                ctx.case([prog, method, "resume", k, name], nontrivial=nontrivial)
+                ctx.tally("resume_target", name)
+                if batches(ev) != want:
+                    ctx.violation("resume-not-remaining-batches", f"resuming after batch {k + 1} via {name} does not yield exactly the remaining batches",
+                                  {**repl0, "k": k, "target": name, "resumed": ev, "remaining": want})
+
+            for name, app, capx in seekers:
+                ev_s, rc, was_fin = do_seek_fresh(ctx, app, method, pid, tk, "iterate")
+                if ev_s is None:
+                    ctx.tally("resume_target", name + ":fresh-call-raised")
+                    parts.append(([["blocked"]], []))
+                    continue
+                ctx.tally("seek_on_finished_session", was_fin)
+                judge(name + (":finished" if was_fin else ":live"), ev_s)
+                overshoot_check(ctx, S, rc, capx, None, {**repl0, "k": k, "target": name})
+                all_rcs.append(rc)
+                parts.append((ev_s, turn_summary(rc, S)))
+            ev_r, rc = do_rewind(ctx, holder, pid, tk, "iterate")
+            judge("rewind-exhausted-session:iterate", ev_r)
+            parts.append((ev_r, turn_summary(rc, S)))
+            # oracle only: the same two routes read with next_with_token (uncapped workers: one batch per response)
+            ev_r2, _ = do_rewind(ctx, holder, pid, tk, "nwt")
+            judge("rewind-exhausted-session:next_with_token", ev_r2)
+            ev_s2, _, was_fin2 = do_seek_fresh(ctx, second, method, pid, tk, "nwt")
+            if ev_s2 is not None:
+                judge("seek-fresh-uncapped:next_with_token" + (":finished" if was_fin2 else ":live"), ev_s2)
             # negative control: another key must not resume
             if k == 0:
                 ev, _ = do_resume(ctx, worker(None, 4096, S.OTHER_KEY), None, method, pid, tk, "resume_stream")
                 if batches(ev) or not ev or ev[-1][0] != "error":
                     ctx.violation("resume-under-foreign-key", "a worker with a different token key resumed the stream", {**repl0, "events": ev})
+        n_rc.turns[:] = n_turns  # the rewinds reused (and cleared) the origin's recording client
         all_rcs.append(n_rc)
-        pending.append(("1", (c_wspec(1, None, 8), f"[{'; '.join(others_spec)}]"), parts, {**repl0, "scenario": "nwt+resume", "cap2": cap2, "impl": parts, "tokens": len(live)}))
+        pending.append(("1", (c_wspec(1, None, 8), f"([{'; '.join(others_spec)}], [{'; '.join(seekers_spec)}])"), parts, {**repl0, "scenario": "nwt+resume", "cap2": cap2, "impl": parts, "tokens": len(live)}))
         # frame sizes: every frame the server wrote in any run of this program (a client that stops at an error never
         # requests the later turns, so no single run sees them all)
         logs, data, base, stable2 = size_tables(S, all_rcs, ctx)
@@ -591,6 +697,8 @@ def run(ctx: Any) -> None:
         "the cap test reads the sink " + ("in front of" if meter_front else "behind") + " the compressor (translator) but the lagging-meter overshoot "
         + ("reproduced" if lag_seen else "did not reproduce") + " on the witness program under a coded continuation turn",
     )
+    fin_seeks = ctx.dist.get("seek_on_finished_session", {}).get("True", 0)
+    ctx.obligation("env:seek-on-finished-session-exercised", "environment", fin_seeks > 0, "no fresh session was already finished by its /init response when seek_to_token was applied")
     ctx.obligation("env:checked-some-turns", "environment", ctx.counters.get("turns_checked", 0) > 50, "overshoot oracle saw too few capped turns")
 
     ok, bad, log = ctx.coq_mismatches(HEADER, "run_case", "out_eqb", model_cases, "case_in", "case_out", shard=30)
